@@ -380,6 +380,56 @@ end Shroud.Lines
 
 namespace Shroud.Lines
 
+/-! ### user supplied lines (splicers) are protected from the directive reader -/
+
+/-- **(6) user text is never read as a directive**: for EVERY user line `s` - whatever it starts or ends with -
+    the line `_literal_lines` hands to `write_lines` has the documented body `s` itself, is written at the current
+    indentation, and leaves the indentation state unchanged.  With `wl_subline_spec`: no character of a user
+    line is removed or reinterpreted, and it cannot shift the layout of the lines after it. -/
+theorem user_line_protected (i : Int) (s : List Char) :
+    docBody (protect s) = s ∧ docIndent i (protect s) = (i, i) := by
+  cases s with
+  | nil => simp [protect, docBody, docIndent]
+  | cons c cs =>
+    by_cases h1 : c = '#'
+    · subst h1; simp [protect, docBody, docIndent]
+    by_cases hd : (c = '@' ∨ c = '^' ∨ c = '+' ∨ c = '-' ∨ (c :: cs).getLast? = some '+')
+    · have : protect (c :: cs) = '@' :: c :: cs := by simp [protect, h1, hd]
+      rw [this]; simp [docBody, docIndent]
+    · have hp : protect (c :: cs) = c :: cs := by simp [protect, hd]
+      rw [hp]
+      have h2 : c ≠ '@' := fun h => hd (Or.inl h)
+      have h3 : c ≠ '^' := fun h => hd (Or.inr (Or.inl h))
+      have h4 : c ≠ '+' := fun h => hd (Or.inr (Or.inr (Or.inl h)))
+      have h5 : c ≠ '-' := fun h => hd (Or.inr (Or.inr (Or.inr (Or.inl h))))
+      have h6 : (c :: cs).getLast? ≠ some '+' := fun h => hd (Or.inr (Or.inr (Or.inr (Or.inr h))))
+      simp [docBody, docIndent, h1, h2, h3, h4, h5, h6]
+
+/-- so the emitted lines for a protected user line are exactly those of its own text at the current indentation -/
+theorem user_line_emitted (linelen : Nat) (spaces cont : List Char) (i : Int) (s : List Char) :
+    subline linelen spaces cont i (protect s) =
+      .ok ⟨if docRaw (protect s) then [s] else render cont (wcBodies { linelen, indent := i, spaces } s), i⟩ := by
+  rw [wl_subline_spec]
+  have h := user_line_protected i s
+  rw [h.1, h.2]
+
+/-- an unprotected directive-looking line loses characters (why `_literal_lines` is needed): witness -/
+theorem unprotected_line_loses_text : docBody "- third;".toList ≠ "- third;".toList ∧
+    docBody "x = first +".toList ≠ "x = first +".toList := by decide
+
+/-- **table theorem** (regenerated AST scan of `util._create_splicer`): both sources of user lines - the
+    declaration-level `splicer:` (force) and splicer files / `splicer_code` (user) - pass through `_literal_lines`;
+    generated default bodies, which use directives on purpose, do not -/
+theorem splicer_branches_protect_user_code :
+    Shroud.Gen.LineCfg.splicerBranches = modelSplicerBranches := by decide +kernel
+
+example : protect "- third;".toList = "@- third;".toList ∧ protect "#if X +".toList = "#if X +".toList ∧
+    protect "a = b +".toList = "@a = b +".toList ∧ protect "plain".toList = "plain".toList := by decide
+
+end Shroud.Lines
+
+namespace Shroud.Lines
+
 /-! ### whole files: `write_output_file` -/
 
 /-- Every file starts with a header made of comment lines only (file name,
